@@ -69,6 +69,9 @@ func (d *Director) expectPeers(a *Actor, asked int, kind string, t0 time.Time) p
 // Peer asks for peers and checks the reply (C08) and which connections were instructed (C09).
 func (d *Director) Peer(a *Actor, asked int, kind string, legacyClient bool) ([]store.Node, error) {
 	w := d.W
+	if d.desync {
+		return nil, nil // a step before this one left the model behind (the run is ending)
+	}
 	d.n++
 	if a.Conn == nil || a.Conn.Closed {
 		w.Dial(a)
